@@ -19,7 +19,8 @@
                  switched off); a violating step that needed none inherits the deviations of
                  the closest earlier deviating step of its scenario.
 
-   Failures are collected in `bad`; the run always reaches the end and prints one REPORT. *)
+   Failures are collected in `bad` (printed as BAD at the end of each scenario); the run always
+   reaches the end and prints one REPORT. *)
 EXTENDS MemWalOps, Json, IOUtils, SequencesExt
 
 Rec == ndJsonDeserialize(IOEnv.TRACE)
@@ -50,12 +51,13 @@ Init == /\ l = 1 /\ obs = <<>> /\ raw = [list |-> <<>>, rows |-> 0] /\ hvT = <<>
         /\ lastDev = <<>> /\ skip = FALSE /\ bad = <<>>
         /\ cnt = [x \in Counters |-> 0]
 
-AddBad(entries) == IF Len(bad) < 400 THEN bad \o entries ELSE bad
+AddBad(entries) == bad \o entries
 
 Reset(e) ==
   /\ obs' = <<>> /\ raw' = [list |-> <<>>, rows |-> 0] /\ hvT' = <<>> /\ scn' = e.scn
   /\ lastDev' = <<>> /\ skip' = FALSE
-  /\ bad' = bad
+  /\ (IF bad = <<>> THEN TRUE ELSE PrintT(<<"BAD", ToJson(bad)>>))   \* failures of the finished scenario
+  /\ bad' = <<>>
   /\ cnt' = Bump(cnt, {"scenarios", "events"})
 
 \* keep going without judging (after loss of synchronisation or an unreadable latest version)
